@@ -12,15 +12,23 @@
      Close():    closed.Store(true); close(closeC)                                              (EClose)
      Run():      select { callC: add to the batch, complete it when full / linger = 0          (ERunRecv)
                           timeout: complete the batch                                          (ETick)
-                          closeC: fail the batch, then
-                                  for { select { callC: failCall
-                                                 default: if adding == 0 { return }; Gosched } }
-                                                                  (ERunClose, EDrainOne*, EDrainEnd) }
+                          closeC: fail the batch, then                                  (ERunClose)
+                                  for { select { callC: failCall                       (EDrainOne)
+                                                 default:                              (EDrainDefault: the queue is empty)
+                                                   if adding != 0 { Gosched; continue }(EDrainCheck: the counter is read)
+                                                   for { select { callC: failCall      (EDrainOne)
+                                                                  default: return } }  (EDrainDefault)
+                                  } } }
    The schedule -- which goroutine moves next -- is the event list.  Complete()/Fail() are atomic here: a parked
    Complete only restricts the schedules.
 
-   [wait_for_adders] is the drain rule: true = the code as it is (Run returns only when it reads adding == 0);
-   false = the code as it was found (Run returns as soon as the queue is empty; no counter).
+   Finding the queue empty and reading the counter are two steps: an Add can enqueue and decrement in between.
+   [sd_rule] is the drain rule:
+     RuleQueueEmpty          the code as it was found: Run returns as soon as it finds the queue empty (no counter);
+     RuleCounterAfterEmpty   the first repair (commit cb6e33f): after finding the queue empty, Run returns if it reads
+                             adding == 0 -- without looking at the queue again;
+     RuleFinalDrain          the code as it is: after reading adding == 0 Run drains the queue once more, and returns when
+                             it finds it empty.
    [overlapped] is a ghost flag: some Add was between its closed-check and its send when Close happened. *)
 From Coq Require Import List NArith Bool.
 Import ListNotations.
@@ -28,9 +36,15 @@ Import ListNotations.
 Inductive sdres := SdOk | SdShut.
 Inductive sdev :=
   | EAddStart (c : N) | EAddCheck (c : N) | EAddSend (c : N) | EAddFinish (c : N) | EAddFail (c : N)
-  | ERunRecv | ETick | EClose | ERunClose | EDrainOne | EDrainEnd.
+  | ERunRecv | ETick | EClose | ERunClose | EDrainOne | EDrainDefault | EDrainCheck.
 
-Record sdcfg := mkSdCfg { sd_cap : nat; sd_linger_pos : bool; sd_max : nat; sd_wait_for_adders : bool }.
+Inductive drain_rule := RuleQueueEmpty | RuleCounterAfterEmpty | RuleFinalDrain.
+
+(* where Run is: in its main loop; in the drain loop; has found the queue empty and is about to read the counter; in the
+   final drain after reading adding == 0 *)
+Inductive dphase := PMain | PLoop | PSawEmpty | PFinal.
+
+Record sdcfg := mkSdCfg { sd_cap : nat; sd_linger_pos : bool; sd_max : nat; sd_rule : drain_rule }.
 
 Record sdstate := mkSd {
   sd_started : list N;      (* Adds that have incremented [adding] and not yet loaded [closed] *)
@@ -41,11 +55,13 @@ Record sdstate := mkSd {
   sd_q : list N;            (* callC's buffer *)
   sd_closed : bool;
   sd_batch : list N;        (* Run's current batch *)
-  sd_draining : bool;       (* Run is in the drain loop of the close branch *)
+  sd_phase : dphase;        (* where Run is *)
   sd_run_done : bool;       (* Run has returned *)
   sd_overlapped : bool }.
 
-Definition sd_init : sdstate := mkSd [] [] [] [] [] [] false [] false false false.
+Definition sd_init : sdstate := mkSd [] [] [] [] [] [] false [] PMain false false.
+
+Definition sd_draining (s : sdstate) : bool := match sd_phase s with PMain => false | _ => true end.
 
 (* b.adding: the Adds between their increment and their decrement *)
 Definition sd_adding (s : sdstate) : nat :=
@@ -76,16 +92,16 @@ Definition sd_step (cfg : sdcfg) (s : sdstate) (ev : sdev) : sdstate * list (N *
   match ev with
   | EAddStart c =>
       (mkSd (sd_started s ++ [c]) (sd_inflight s) (sd_parked s) (sd_sent s) (sd_failing s) (sd_q s) (sd_closed s)
-            (sd_batch s) (sd_draining s) (sd_run_done s) (sd_overlapped s), [])
+            (sd_batch s) (sd_phase s) (sd_run_done s) (sd_overlapped s), [])
   | EAddCheck c =>
       match remove1 c (sd_started s) with
       | None => (s, [])
       | Some rest =>
           if sd_closed s
           then (mkSd rest (sd_inflight s) (sd_parked s) (sd_sent s) (sd_failing s ++ [c]) (sd_q s) true
-                     (sd_batch s) (sd_draining s) (sd_run_done s) (sd_overlapped s), [])
+                     (sd_batch s) (sd_phase s) (sd_run_done s) (sd_overlapped s), [])
           else (mkSd rest (sd_inflight s ++ [c]) (sd_parked s) (sd_sent s) (sd_failing s) (sd_q s) false
-                     (sd_batch s) (sd_draining s) (sd_run_done s) (sd_overlapped s), [])
+                     (sd_batch s) (sd_phase s) (sd_run_done s) (sd_overlapped s), [])
       end
   | EAddSend c =>
       match remove1 c (sd_inflight s) with
@@ -93,23 +109,23 @@ Definition sd_step (cfg : sdcfg) (s : sdstate) (ev : sdev) : sdstate * list (N *
       | Some rest =>
           if Nat.ltb (length (sd_q s)) (sd_cap cfg)
           then (mkSd (sd_started s) rest (sd_parked s) (sd_sent s ++ [c]) (sd_failing s) (sd_q s ++ [c]) (sd_closed s)
-                     (sd_batch s) (sd_draining s) (sd_run_done s) (sd_overlapped s), [])
+                     (sd_batch s) (sd_phase s) (sd_run_done s) (sd_overlapped s), [])
           else (mkSd (sd_started s) rest (sd_parked s ++ [c]) (sd_sent s) (sd_failing s) (sd_q s) (sd_closed s)
-                     (sd_batch s) (sd_draining s) (sd_run_done s) (sd_overlapped s), [])
+                     (sd_batch s) (sd_phase s) (sd_run_done s) (sd_overlapped s), [])
       end
   | EAddFinish c =>
       match remove1 c (sd_sent s) with
       | None => (s, [])
       | Some rest =>
           (mkSd (sd_started s) (sd_inflight s) (sd_parked s) rest (sd_failing s) (sd_q s) (sd_closed s)
-                (sd_batch s) (sd_draining s) (sd_run_done s) (sd_overlapped s), [])
+                (sd_batch s) (sd_phase s) (sd_run_done s) (sd_overlapped s), [])
       end
   | EAddFail c =>
       match remove1 c (sd_failing s) with
       | None => (s, [])
       | Some rest =>
           (mkSd (sd_started s) (sd_inflight s) (sd_parked s) (sd_sent s) rest (sd_q s) (sd_closed s)
-                (sd_batch s) (sd_draining s) (sd_run_done s) (sd_overlapped s), [(c, SdShut)])
+                (sd_batch s) (sd_phase s) (sd_run_done s) (sd_overlapped s), [(c, SdShut)])
       end
   | ERunRecv =>
       if sd_run_done s || sd_draining s then (s, []) else
@@ -118,45 +134,70 @@ Definition sd_step (cfg : sdcfg) (s : sdstate) (ev : sdev) : sdstate * list (N *
       | Some (c, q', ps, snt) =>
           let b := sd_batch s ++ [c] in
           if negb (sd_linger_pos cfg) || Nat.eqb (length b) (sd_max cfg)
-          then (mkSd (sd_started s) (sd_inflight s) ps snt (sd_failing s) q' (sd_closed s) [] false false
+          then (mkSd (sd_started s) (sd_inflight s) ps snt (sd_failing s) q' (sd_closed s) [] PMain false
                      (sd_overlapped s), dones SdOk b)
-          else (mkSd (sd_started s) (sd_inflight s) ps snt (sd_failing s) q' (sd_closed s) b false false
+          else (mkSd (sd_started s) (sd_inflight s) ps snt (sd_failing s) q' (sd_closed s) b PMain false
                      (sd_overlapped s), [])
       end
   | ETick =>
       if sd_run_done s || sd_draining s || negb (sd_linger_pos cfg) then (s, [])
       else (mkSd (sd_started s) (sd_inflight s) (sd_parked s) (sd_sent s) (sd_failing s) (sd_q s) (sd_closed s) []
-                 false false (sd_overlapped s), dones SdOk (sd_batch s))
+                 PMain false (sd_overlapped s), dones SdOk (sd_batch s))
   | EClose =>
       if sd_closed s then (s, [])
       else (mkSd (sd_started s) (sd_inflight s) (sd_parked s) (sd_sent s) (sd_failing s) (sd_q s) true (sd_batch s)
-                 (sd_draining s) (sd_run_done s)
+                 (sd_phase s) (sd_run_done s)
                  (match sd_inflight s with [] => sd_overlapped s | _ => true end), [])
   | ERunClose =>
       if sd_closed s && negb (sd_run_done s) && negb (sd_draining s)
-      then (mkSd (sd_started s) (sd_inflight s) (sd_parked s) (sd_sent s) (sd_failing s) (sd_q s) true [] true false
+      then (mkSd (sd_started s) (sd_inflight s) (sd_parked s) (sd_sent s) (sd_failing s) (sd_q s) true [] PLoop false
                  (sd_overlapped s), dones SdShut (sd_batch s))
       else (s, [])
   | EDrainOne =>
-      if sd_draining s then
-        match sd_pop s with
-        | None => (s, [])
-        | Some (c, q', ps, snt) =>
-            (mkSd (sd_started s) (sd_inflight s) ps snt (sd_failing s) q' (sd_closed s) (sd_batch s) true false
-                  (sd_overlapped s), [(c, SdShut)])
-        end
-      else (s, [])
-  | EDrainEnd =>
-      if sd_draining s then
-        match sd_q s with
-        | [] =>
-            if negb (sd_wait_for_adders cfg) || Nat.eqb (sd_adding s) 0
-            then (mkSd (sd_started s) (sd_inflight s) (sd_parked s) (sd_sent s) (sd_failing s) [] (sd_closed s)
-                       (sd_batch s) false true (sd_overlapped s), [])
-            else (s, [])                                    (* runtime.Gosched(); the loop goes on *)
-        | _ => (s, [])
-        end
-      else (s, [])
+      match sd_phase s with
+      | PLoop | PFinal =>
+          match sd_pop s with
+          | None => (s, [])
+          | Some (c, q', ps, snt) =>
+              (mkSd (sd_started s) (sd_inflight s) ps snt (sd_failing s) q' (sd_closed s) (sd_batch s) (sd_phase s) false
+                    (sd_overlapped s), [(c, SdShut)])
+          end
+      | _ => (s, [])
+      end
+  | EDrainDefault =>
+      (* the select's default: nothing can be received *)
+      match sd_q s with
+      | [] =>
+          let returned := mkSd (sd_started s) (sd_inflight s) (sd_parked s) (sd_sent s) (sd_failing s) [] (sd_closed s)
+                               (sd_batch s) PMain true (sd_overlapped s) in
+          let saw := mkSd (sd_started s) (sd_inflight s) (sd_parked s) (sd_sent s) (sd_failing s) [] (sd_closed s)
+                          (sd_batch s) PSawEmpty false (sd_overlapped s) in
+          match sd_phase s, sd_rule cfg with
+          | PLoop, RuleQueueEmpty => (returned, [])
+          | PLoop, _ => (saw, [])
+          | PFinal, _ => (returned, [])
+          | _, _ => (s, [])
+          end
+      | _ => (s, [])
+      end
+  | EDrainCheck =>
+      (* b.adding.Load() *)
+      match sd_phase s with
+      | PSawEmpty =>
+          if Nat.eqb (sd_adding s) 0 then
+            match sd_rule cfg with
+            | RuleFinalDrain =>
+                (mkSd (sd_started s) (sd_inflight s) (sd_parked s) (sd_sent s) (sd_failing s) (sd_q s) (sd_closed s)
+                      (sd_batch s) PFinal false (sd_overlapped s), [])
+            | _ =>
+                (mkSd (sd_started s) (sd_inflight s) (sd_parked s) (sd_sent s) (sd_failing s) (sd_q s) (sd_closed s)
+                      (sd_batch s) PMain true (sd_overlapped s), [])
+            end
+          else                                        (* runtime.Gosched(); continue *)
+            (mkSd (sd_started s) (sd_inflight s) (sd_parked s) (sd_sent s) (sd_failing s) (sd_q s) (sd_closed s)
+                  (sd_batch s) PLoop false (sd_overlapped s), [])
+      | _ => (s, [])
+      end
   end.
 
 Fixpoint sd_run (cfg : sdcfg) (s : sdstate) (evs : list sdev) : sdstate * list (N * sdres) :=
